@@ -675,19 +675,26 @@ func (r *HeaderFooterResult) FilterFragments(pageIndex int, fragments []text.Tex
 	// Detect coordinate system
 	invertedCoords := maxY > pageHeight
 
-	// Scale regions if content extends beyond page
+	// The header and footer zones are measured from the page edges, exactly as
+	// during detection (extractCandidates). Only when the content extends
+	// beyond the page (inverted coordinates) are the content bounds used, with
+	// scaled regions.
+	refMinY, refMaxY := 0.0, pageHeight
 	headerRegion := r.Config.HeaderRegionHeight
 	footerRegion := r.Config.FooterRegionHeight
-	if contentHeight > pageHeight {
-		scale := contentHeight / pageHeight
-		headerRegion *= scale
-		footerRegion *= scale
+	if invertedCoords {
+		refMinY, refMaxY = minY, maxY
+		if contentHeight > pageHeight {
+			scale := contentHeight / pageHeight
+			headerRegion *= scale
+			footerRegion *= scale
+		}
 	}
 
 	var filtered []text.TextFragment
 
 	for _, frag := range fragments {
-		if r.isInHeaderFooter(pageIndex, frag, minY, maxY, headerRegion, footerRegion, invertedCoords, charLevel) {
+		if r.isInHeaderFooter(pageIndex, frag, refMinY, refMaxY, headerRegion, footerRegion, invertedCoords, charLevel) {
 			continue
 		}
 		filtered = append(filtered, frag)
